@@ -663,6 +663,44 @@ func init() {
 	vx("UrlString", func(ex *Exec, fr *Frame, a []Value, s ssa.Instruction) Value { return ex.tt.UF("url_string", SString, a[0].(*Term)) })
 	vx("UrlValid", func(ex *Exec, fr *Frame, a []Value, s ssa.Instruction) Value { return ex.tt.UF("url_valid", SBool, a[0].(*Term)) })
 	vx("JsonValid", func(ex *Exec, fr *Frame, a []Value, s ssa.Instruction) Value { return ex.tt.UF("jvalid_any", SBool, a[0].(*Term)) })
+	// what a JSON text decodes to for the struct type of the sample pointer: decodes at all (and is not null);
+	// the value of a top-level string member
+	vx("JsonDecodes", func(ex *Exec, fr *Frame, a []Value, s ssa.Instruction) Value {
+		tt := ex.tt
+		st := a[1].(*IfaceV).typ.Underlying().(*types.Pointer).Elem()
+		key := typeKey(st)
+		b := ex.bytesOf(a[0])
+		valid := liftIte(tt, b.s, func(s *Term) *Term {
+			if s.op == "uf:jenc_"+key {
+				return tt.Bool(true)
+			}
+			return tt.And(tt.UF("jvalid_"+key, SBool, s), tt.Not(tt.UF("jnull_"+key, SBool, s)))
+		})
+		return tt.And(tt.Not(b.isNil), tt.Not(tt.Eq(b.s, tt.Str(""))), valid)
+	})
+	vx("JsonStringField", func(ex *Exec, fr *Frame, a []Value, s ssa.Instruction) Value {
+		tt := ex.tt
+		st := a[1].(*IfaceV).typ.Underlying().(*types.Pointer).Elem()
+		key := typeKey(st)
+		name := ex.str(a[2], "field name")
+		var leaves []jleaf
+		if !jsonLeaves(st, nil, &leaves) {
+			panic(ex.unsupported("JsonStringField: type %s", st))
+		}
+		su := st.Underlying().(*types.Struct)
+		for i, l := range leaves {
+			if len(l.path) == 1 && su.Field(l.path[0]).Name() == name && l.kind == "str" {
+				i := i
+				return liftIte(tt, ex.bytesOf(a[0]).s, func(s *Term) *Term {
+					if s.op == "uf:jenc_"+key {
+						return s.args[i]
+					}
+					return tt.UF(fmt.Sprintf("jdec_%s_%d", key, i), SString, s)
+				})
+			}
+		}
+		panic(ex.unsupported("JsonStringField: no string member %s in %s", name, st))
+	})
 	// the JSON text has object members that the struct type of the sample pointer does not declare
 	vx("JsonUnknownFields", func(ex *Exec, fr *Frame, a []Value, s ssa.Instruction) Value {
 		iv := a[1].(*IfaceV)
@@ -745,4 +783,86 @@ func init() {
 	intercepts["github.com/gin-gonic/gin.nameOfFunction"] = func(ex *Exec, fr *Frame, a []Value, s ssa.Instruction) Value {
 		return ex.tt.Str("handler")
 	}
+}
+
+// ---- net/http client contract (http plugin harness): NewRequest fails or builds a request; Header.Set is
+// recorded; Client.Do fails (transport error) or returns a response with an arbitrary status code.
+type httpSent struct {
+	method, url *Term
+	body        *BytesV
+	status      *Term
+}
+
+func init() {
+	intercepts["net/http.NewRequest"] = func(ex *Exec, fr *Frame, a []Value, s ssa.Instruction) Value {
+		ex.H.noteStub("net/http.NewRequest: fails (invalid url) or builds the request; Header.Set recorded; Client.Do: transport error or a response with an arbitrary status code")
+		rt := s.(*ssa.Call).Call.Value.(*ssa.Function).Signature.Results().At(0).Type()
+		if ex.choose(2, nil, "http-new-request") == 1 {
+			return &TupleV{vs: []Value{&PtrV{typ: rt}, ex.opaqueErr("net/http: invalid url")}}
+		}
+		req := ex.newStruct(rt.(*types.Pointer).Elem())
+		var body *BytesV
+		if iv, ok := a[2].(*IfaceV); ok && iv.typ != nil {
+			body = ex.opaqueOf(iv.v, "bytes.Reader").data.(*BytesV)
+		}
+		ex.W.httpBuilt = &httpSent{method: a[0].(*Term), url: a[1].(*Term), body: body}
+		ex.W.httpHeaders = nil
+		return &TupleV{vs: []Value{req, nilErr()}}
+	}
+	intercepts["(net/http.Header).Set"] = func(ex *Exec, fr *Frame, a []Value, s ssa.Instruction) Value {
+		ex.W.httpHeaders = append(ex.W.httpHeaders, [2]*Term{a[1].(*Term), a[2].(*Term)})
+		return nil
+	}
+	intercepts["(*net/http.Client).Do"] = func(ex *Exec, fr *Frame, a []Value, s ssa.Instruction) Value {
+		rt := s.(*ssa.Call).Call.Value.(*ssa.Function).Signature.Results().At(0).Type()
+		if ex.W.httpBuilt == nil {
+			panic(ex.unsupported("Client.Do of a request not built by http.NewRequest"))
+		}
+		sent := *ex.W.httpBuilt
+		ex.W.httpSent = append(ex.W.httpSent, &sent)
+		if ex.choose(2, nil, "http-transport-error") == 1 {
+			return &TupleV{vs: []Value{&PtrV{typ: rt}, ex.opaqueErr("net/http: transport error")}}
+		}
+		st := rt.(*types.Pointer).Elem()
+		res := ex.newStruct(st)
+		code := ex.input(fmt.Sprintf("http.status%d", len(ex.W.httpSent)), "int", SBV64)
+		ex.addPC(ex.tt.And(ex.tt.SLe(ex.tt.BV(100, 64), code), ex.tt.SLt(code, ex.tt.BV(600, 64))))
+		sent.status = code
+		ex.W.httpSent[len(ex.W.httpSent)-1] = &sent
+		ex.fset(res, st, "StatusCode", code)
+		return &TupleV{vs: []Value{res, nilErr()}}
+	}
+	sentAt := func(ex *Exec, v Value) *httpSent {
+		i := ex.concreteInt(v, "request index")
+		if i < 0 || i >= len(ex.W.httpSent) {
+			panic(ex.goPanic("no such sent http request %d", i))
+		}
+		return ex.W.httpSent[i]
+	}
+	vx("HttpSent", func(ex *Exec, fr *Frame, a []Value, s ssa.Instruction) Value { return ex.tt.BV(uint64(len(ex.W.httpSent)), 64) })
+	vx("HttpSentMethod", func(ex *Exec, fr *Frame, a []Value, s ssa.Instruction) Value { return sentAt(ex, a[0]).method })
+	vx("HttpSentURL", func(ex *Exec, fr *Frame, a []Value, s ssa.Instruction) Value { return sentAt(ex, a[0]).url })
+	vx("HttpSentBody", func(ex *Exec, fr *Frame, a []Value, s ssa.Instruction) Value {
+		if b := sentAt(ex, a[0]).body; b != nil {
+			return b
+		}
+		return &BytesV{isNil: ex.tt.Bool(true), s: ex.tt.Str("")}
+	})
+	// -1: transport error (no response)
+	vx("HttpSentStatus", func(ex *Exec, fr *Frame, a []Value, s ssa.Instruction) Value {
+		if st := sentAt(ex, a[0]).status; st != nil {
+			return st
+		}
+		return ex.tt.BV(^uint64(0), 64)
+	})
+	// the value of header k on the request as sent (last Set wins; canonical header keys are compared as given)
+	vx("HttpSentHeader", func(ex *Exec, fr *Frame, a []Value, s ssa.Instruction) Value {
+		tt := ex.tt
+		k := a[0].(*Term)
+		var v *Term = tt.Str("")
+		for _, h := range ex.W.httpHeaders {
+			v = tt.Ite(tt.Eq(tt.UF("http_canon", SString, h[0]), tt.UF("http_canon", SString, k)), h[1], v)
+		}
+		return v
+	})
 }
